@@ -124,6 +124,9 @@ func checkC14(c *Ctx) {
 						bad = "uses package-level variable " + g.Name() + " (" + typeShort(elem) + ", shared mutable state)"
 					}
 				}
+				if bad == "" {
+					bad = writesInput(f, in)
+				}
 				if bad != "" {
 					nBad++
 					r.Bad("C14.1", fnName(f)+": "+bad, in.Pos(), fnName(f),
@@ -283,6 +286,55 @@ func checkC14(c *Ctx) {
 
 	// ---- C14.5 containment guards
 	r.Rule("C14.5", "address built only under offset < netSize; subnet match tests both bounds", 2)
+	// the base every offset is added to is the subnet's network address: a *net.IPNet in this package comes from
+	// net.ParseCIDR (which masks the address) or is built from a masked address
+	nNets := 0
+	for _, f := range c.funcsOfPkgs(ph) {
+		if strings.Contains(r.posStr(f.Pos()), "_test") {
+			continue
+		}
+		eachInstr(f, func(in ssa.Instruction) {
+			al, ok := in.(*ssa.Alloc)
+			if !ok || typeShort(al.Type().Underlying().(*types.Pointer).Elem()) != "net.IPNet" || al.Referrers() == nil {
+				return
+			}
+			for _, ref := range *al.Referrers() {
+				fa, ok := ref.(*ssa.FieldAddr)
+				if !ok || fieldName(fa.X.Type(), fa.Field) != "IP" || fa.Referrers() == nil {
+					continue
+				}
+				for _, r2 := range *fa.Referrers() {
+					st, ok := r2.(*ssa.Store)
+					if !ok || st.Addr != ssa.Value(fa) {
+						continue
+					}
+					nNets++
+					vp := pathOf(st.Val)
+					masked := strings.Contains(vp, ".Mask(") || strings.Contains(vp, ".Masked()") || (strings.Contains(vp, "net.ParseCIDR(") && strings.Contains(vp, ")#1"))
+					r.Check(masked, "C14.5", fnName(f)+": a subnet built by hand uses the masked network address", st.Pos(), fnName(f), firstN(vp, 60),
+						"a net.IPNet is built with IP = "+firstN(vp, 60)+", which is not masked to the prefix: for a CIDR written with host bits set (192.0.2.200/24) base+offset leaves the subnet although offset < size")
+				}
+			}
+		})
+	}
+	if f := c.fn("C14.5", ph, "", "parseSubnet"); f != nil {
+		eachInstr(f, func(in ssa.Instruction) {
+			ret, ok := in.(*ssa.Return)
+			if !ok || len(ret.Results) != 2 {
+				return
+			}
+			if e, isC := returnedValue(ret, 1, nil).(*ssa.Const); !isC || e.Value != nil {
+				return
+			}
+			rv := returnedValue(ret, 0, nil)
+			vp := pathOf(rv)
+			_, built := rv.(*ssa.Alloc)
+			okk := strings.HasPrefix(vp, "net.ParseCIDR(") && strings.HasSuffix(vp, "#1") || built
+			r.Check(okk, "C14.5", "parseSubnet: the subnet is net.ParseCIDR's network (or built from a masked address, checked above)", ret.Pos(), fnName(f), firstN(vp, 60),
+				"parseSubnet returns "+firstN(vp, 60)+", not the masked network of net.ParseCIDR")
+		})
+	}
+	_ = nNets
 	if f := c.fn("C14.5", ph, "", "selectAddrFromSubnetOffset"); f != nil {
 		var add *ssa.Call
 		for _, ci := range callsIn(f, nameIs("(*math/big.Int).Add")) {
@@ -381,4 +433,135 @@ func writtenOutsideInit(p *Program, g *ssa.Global) bool {
 		})
 	}
 	return w
+}
+
+// inputDerived: v is (or may share memory with) something reachable from a parameter of f: the parameter itself,
+// fields, elements and re-slices of it, the results of getters on it, and appends to such a slice. Fresh values
+// (make, literals, allocations, results of other calls) are not.
+func inputDerived(v ssa.Value, depth int, seen map[ssa.Value]bool) bool {
+	if v == nil || depth > 14 || seen[v] {
+		return false
+	}
+	seen[v] = true
+	switch x := v.(type) {
+	case *ssa.Parameter:
+		_, isBasic := x.Type().Underlying().(*types.Basic)
+		return !isBasic
+	case *ssa.FreeVar:
+		return true
+	case *ssa.FieldAddr:
+		return inputDerived(x.X, depth+1, seen)
+	case *ssa.Field:
+		return inputDerived(x.X, depth+1, seen)
+	case *ssa.IndexAddr:
+		return inputDerived(x.X, depth+1, seen)
+	case *ssa.Index:
+		return inputDerived(x.X, depth+1, seen)
+	case *ssa.Lookup:
+		return inputDerived(x.X, depth+1, seen)
+	case *ssa.Slice:
+		return inputDerived(x.X, depth+1, seen)
+	case *ssa.UnOp:
+		if x.Op == token.MUL {
+			if al, ok := x.X.(*ssa.Alloc); ok {
+				// a local: derived if some store into it is derived
+				if al.Referrers() != nil {
+					for _, ref := range *al.Referrers() {
+						if st, ok := ref.(*ssa.Store); ok && st.Addr == ssa.Value(al) && inputDerived(st.Val, depth+1, seen) {
+							return true
+						}
+					}
+				}
+				return false
+			}
+			return inputDerived(x.X, depth+1, seen)
+		}
+	case *ssa.ChangeType:
+		return inputDerived(x.X, depth+1, seen)
+	case *ssa.Convert:
+		return inputDerived(x.X, depth+1, seen)
+	case *ssa.ChangeInterface:
+		return inputDerived(x.X, depth+1, seen)
+	case *ssa.MakeInterface:
+		return inputDerived(x.X, depth+1, seen)
+	case *ssa.TypeAssert:
+		return inputDerived(x.X, depth+1, seen)
+	case *ssa.Extract:
+		return inputDerived(x.Tuple, depth+1, seen)
+	case *ssa.Next:
+		return inputDerived(x.Iter, depth+1, seen)
+	case *ssa.Range:
+		return inputDerived(x.X, depth+1, seen)
+	case *ssa.Phi:
+		for _, e := range x.Edges {
+			if inputDerived(e, depth+1, seen) {
+				return true
+			}
+		}
+	case *ssa.Call:
+		if b, ok := x.Call.Value.(*ssa.Builtin); ok && b.Name() == "append" {
+			return inputDerived(x.Call.Args[0], depth+1, seen)
+		}
+		// nil-safe protobuf getters and other accessor methods hand out the receiver's own storage
+		if rv := recvOf(&x.Call); rv != nil && strings.HasPrefix(calleeShort(&x.Call), "Get") {
+			switch x.Type().Underlying().(type) {
+			case *types.Slice, *types.Map, *types.Pointer:
+				return inputDerived(rv, depth+1, seen)
+			}
+		}
+	}
+	return false
+}
+
+// writesInput: the instruction may write into memory that belongs to the function's inputs.
+func writesInput(f *ssa.Function, in ssa.Instruction) string {
+	der := func(v ssa.Value) bool { return inputDerived(v, 0, map[ssa.Value]bool{}) }
+	switch x := in.(type) {
+	case *ssa.Store:
+		switch a := x.Addr.(type) {
+		case *ssa.IndexAddr:
+			if der(a.X) {
+				return "stores into an element of " + firstN(pathOf(a.X), 50) + ", which belongs to its input"
+			}
+		case *ssa.FieldAddr:
+			if der(a.X) {
+				if al, ok := a.X.(*ssa.Alloc); ok && !al.Heap {
+					return ""
+				}
+				return "stores into field " + firstN(pathOf(a), 50) + " of its input"
+			}
+		}
+	case *ssa.MapUpdate:
+		if der(x.Map) {
+			return "updates the map " + firstN(pathOf(x.Map), 50) + ", which belongs to its input"
+		}
+	case ssa.CallInstruction:
+		cc := x.Common()
+		n := calleeName(cc)
+		if b, ok := cc.Value.(*ssa.Builtin); ok {
+			switch b.Name() {
+			case "append":
+				// appending to a re-slice of input storage writes into the input's backing array
+				if _, isSlice := cc.Args[0].(*ssa.Slice); isSlice && der(cc.Args[0]) {
+					return "appends to a re-slice of " + firstN(pathOf(cc.Args[0]), 50) + " (writes into its input's backing array)"
+				}
+			case "copy":
+				if der(cc.Args[0]) {
+					return "copies into " + firstN(pathOf(cc.Args[0]), 50) + ", which belongs to its input"
+				}
+			case "delete":
+				if der(cc.Args[0]) {
+					return "deletes from the map " + firstN(pathOf(cc.Args[0]), 50) + ", which belongs to its input"
+				}
+			}
+			return ""
+		}
+		switch n {
+		case "sort.Slice", "sort.SliceStable", "sort.Sort", "sort.Stable", "sort.Strings", "sort.Ints", "slices.Sort", "slices.SortFunc", "slices.Reverse":
+			if len(cc.Args) > 0 && der(cc.Args[0]) {
+				return "sorts " + firstN(pathOf(cc.Args[0]), 50) + " in place, which belongs to its input"
+			}
+		}
+	}
+	return ""
 }
